@@ -206,6 +206,12 @@ func (v *Verifier) mapComps(m *types.Map) (string, *Sort, string, *Sort) {
 	return "Mh:" + n, SArr(SInt, SArr(ks, SBool)), "Mv:" + n, SArr(SInt, SArr(ks, v.sortOf(m.Elem())))
 }
 
+// rangeComp: ghost component holding the visited-key set of every live map-range iterator.
+func (v *Verifier) rangeComp(m *types.Map) (string, *Sort) {
+	n := v.typeName(m.Key()) + "," + v.typeName(m.Elem())
+	return "Rv:" + n, SArr(SInt, SArr(v.sortOf(m.Key()), SBool))
+}
+
 func (v *Verifier) strToken(s string) *Term {
 	if id, ok := v.strTab[s]; ok {
 		return IntLit(int64(id))
